@@ -58,6 +58,7 @@ func c05Operands(thorough bool) []c05Operand {
 		c05Operand{Name: "{a:1}", Lit: func(string) Expr { return &ObjLit{Keys: []string{"a"}, Vals: []Expr{N("1")}} }, JSON: `{"a":1}`},
 		c05Operand{Name: "/a/", Lit: func(string) Expr { return &RegexLit{"a"} }},
 		c05Operand{Name: "/^$/", Lit: func(string) Expr { return &RegexLit{"^$"} }},
+		c05Operand{Name: "/a(/", Lit: func(string) Expr { return &RegexLit{"a("} }},
 		// values that are null but carry bookkeeping inside the implementation: a read past the end of an array, a missing member
 		c05Operand{Name: "null:index past the end", Lit: func(string) Expr { return Idx(Arr_(N("10"), N("20")), N("3")) }, JSON: "[10,20]", Path: func(b Expr) Expr { return Idx(b, N("3")) }},
 		c05Operand{Name: "null:missing member", Lit: func(string) Expr { return Mem(&Paren{X: &ObjLit{Keys: []string{"k"}, Vals: []Expr{N("1")}}}, "zz") }, JSON: `{"k":1}`, Path: func(b Expr) Expr { return Mem(Mem(b, "zz"), "deeper") }},
